@@ -1609,6 +1609,7 @@ class AsyncGraph:
         # Start nodes (provide same starting timestamp to every node)
         start = time.time()
         for node in self._async_nodes.values():
+            _verif_point("start:node", owner=node.node.name)
             node._start(start=start)
         return graph_state
 
